@@ -35,6 +35,16 @@ Theorem c14_accept_history : forall cs,
 Proof. exact run_accept_spec. Qed.
 Print Assumptions c14_accept_history.
 
+(* The receive path with forged datagrams in the history (readPacketLocked: Check, AEAD open, Mark
+   only after a successful open): an authentic datagram is accepted iff its counter is fresh w.r.t.
+   the authentic datagrams accepted so far; a datagram that does not authenticate is rejected and
+   does not move the filter, wherever it occurs and whatever counter it carries. *)
+Theorem c14_receive_path_history : forall l,
+  Forall (fun p => fst p < lim) l ->
+  run_through win_init l = spec_through [] l.
+Proof. exact run_through_spec. Qed.
+Print Assumptions c14_receive_path_history.
+
 (* arbitrary interleavings of Mark and Check calls *)
 Theorem c14_ops_history : forall ops, ops_lt ops -> run_ops win_init ops = spec_ops [] ops.
 Proof. exact run_ops_spec. Qed.
